@@ -18,6 +18,19 @@ Full == AllClassesHaveTwo(B, C.classes)
 PInvLemma == IsPInv(A, P, C.S) /\ PSD(P, C.S)
 KMatchesP == /\ TemplateK(B, C.classes, C.S, C.variant) = T
              /\ PooledK(B, C.classes, C.S) = P
+\* (M) rescaling one sample of every trace (building and matching) by a constant c rescales the profile accordingly - pooled covariance entries by
+\* c for every index equal to that sample - and leaves every matching score unchanged when the pooled covariance has full rank (the Mahalanobis
+\* distance does not depend on the unit a sample is measured in).  Checked with c = 2 on sample 1; the harness uses it with c = 4096 to present
+\* profiles whose samples differ by orders of magnitude.
+ScaleRows(rows, c) == [i \in 1..Len(rows) |-> [rows[i] EXCEPT !.t = [a \in 1..C.S |-> IF a = 1 THEN c * rows[i].t[a] ELSE rows[i].t[a]]]]
+FullRank == IF C.S = 1 THEN P[1][1][1] # 0 ELSE RSub(RMul(P[1][1], P[2][2]), RMul(P[1][2], P[2][1]))[1] # 0
+ScalingLemma == (FullRank /\ Len(M) > 0) =>
+    LET B2 == ScaleRows(B, 2)  M2 == ScaleRows(M, 2)
+        T2 == Templates(B2, C.classes, C.S)  P2 == Pooled(B2, C.classes, C.S)  A2 == PInv(P2, C.S)
+        f(a) == IF a = 1 THEN 2 ELSE 1
+    IN /\ \A a, b \in 1..C.S : P2[a][b] = RMul(RInt(f(a) * f(b)), P[a][b])
+       /\ \A k \in 1..Len(C.classes) : ScoreStatic(M2, T2, A2, C.S, k) = ScoreStatic(M, T, A, C.S, k)
+       /\ \A g \in 1..C.W : ScoreDpa(M2, T2, A2, C.S, C.classes, g) = ScoreDpa(M, T, A, C.S, C.classes, g)
 \* a trace equal to a template is best matched by that template (static attack, single matching trace, full-rank A)
 Emit == PrintT(<<"EMIT", ToJson([case |-> case, res |->
    [tpl |-> T, full |-> Full,
